@@ -1870,6 +1870,9 @@ def lockstep_view(prog, t, depth=0):
         a, b = lockstep_view(prog, x[2][0], depth + 1), lockstep_view(prog, x[2][1], depth + 1)
         if a is None or b is None or len(a[0]) != 1 or len(b[0]) != 1:
             return None
+        if a[0][0] == b[0][0]:
+            # both sides walk the same collection completely and in order: the i-th pair is made from its i-th element alone
+            return (a[0][0],), ("agg", "tuple", None, None, (("0", a[1]), ("1", b[1])))
         ea = subst(a[1], [(lambda y: y == ITEM, ("field", ITEM, None, "0"))])
         eb = subst(b[1], [(lambda y: y == ITEM, ("field", ITEM, None, "1"))])
         return (a[0][0], b[0][0]), ("agg", "tuple", None, None, (("0", ea), ("1", eb)))
